@@ -26,6 +26,7 @@ import (
 	"verifh/vrt"
 )
 
+//go:norace
 func init() {
 	// shovel logs through slog's default logger; keep workers quiet and fast
 	slog.SetDefault(slog.New(slog.NewTextHandler(io.Discard, &slog.HandlerOptions{Level: slog.Level(100)})))
@@ -48,13 +49,14 @@ type W struct {
 	OnCommit func(c Commit)
 
 	// fault injection: number of fault kinds offered at each SQL batch / RPC exchange (0 = no choice point)
-	SQLFaultKinds int // 1: error; 2: error, drop
-	RPCFaultKinds int // 1: rpcerror; 2: +transport; 3: +status 500; 4: +truncate
+	SQLFaultKinds int                     // 1: error; 2: error, drop
+	RPCFaultKinds int                     // 1: rpcerror; 2: +transport; 3: +status 500; 4: +truncate
 	FaultFilter   func(label string) bool // nil = every I/O point
 	Faults        []string                // injected faults, in order
 	IOLabels      []string                // labels of the I/O points executed (when RecordIO)
 	RecordIO      bool
-	OnExchange    func(ex *simeth.Exchange) // extra hook at every RPC exchange, before faults (after the scheduling point)
+	OnExchange    func(ex *simeth.Exchange)                     // extra hook at every RPC exchange, before faults (after the scheduling point)
+	OnSQL         func(label string, b simpg.Batch) simpg.Fault // extra hook at every SQL gate, after the scheduling point (process death etc.)
 
 	CommitHash uint64 // running hash over the committed changes (cheap state key)
 
@@ -69,6 +71,8 @@ type Cfg struct {
 }
 
 // ParseConf decodes a JSON configuration and runs ValidateFix, as main.go does for -config.
+//
+//go:norace
 func ParseConf(js string) (config.Root, error) {
 	var conf config.Root
 	if err := json.NewDecoder(strings.NewReader(js)).Decode(&conf); err != nil {
@@ -81,6 +85,8 @@ func ParseConf(js string) (config.Root, error) {
 }
 
 // Migrate runs the migration of main.go (advisory lock, schema, config.Migrate) on pool.
+//
+//go:norace
 func Migrate(ctx context.Context, pool *pgxpool.Pool, conf config.Root) error {
 	dbtx, err := pool.Begin(ctx)
 	if err != nil {
@@ -100,6 +106,8 @@ func Migrate(ctx context.Context, pool *pgxpool.Pool, conf config.Root) error {
 }
 
 // InitDB runs the migration on a scratch server (pass-through mode, no world) and snapshots it.
+//
+//go:norace
 func InitDB(conf config.Root) (*simpg.Snapshot, error) {
 	if vrt.W() != nil {
 		return nil, fmt.Errorf("InitDB inside a world")
@@ -121,6 +129,8 @@ func InitDB(conf config.Root) (*simpg.Snapshot, error) {
 }
 
 // New builds a world; nothing runs until Run.
+//
+//go:norace
 func New(ch vrt.Chooser, cfg Cfg) *W {
 	w := &W{Ctx: context.Background()}
 	w.V = vrt.NewWorld(ch)
@@ -142,6 +152,7 @@ func New(ch vrt.Chooser, cfg Cfg) *W {
 	return w
 }
 
+//go:norace
 func emptySQL(sqls []string) bool {
 	for _, q := range sqls {
 		t := strings.TrimSpace(q)
@@ -152,6 +163,7 @@ func emptySQL(sqls []string) bool {
 	return true
 }
 
+//go:norace
 func sqlLabel(b simpg.Batch) string {
 	s := ""
 	if len(b.SQL) > 0 {
@@ -169,6 +181,7 @@ func sqlLabel(b simpg.Batch) string {
 	return "sql:" + b.Kind + ":" + s
 }
 
+//go:norace
 func rpcLabel(ex *simeth.Exchange) string {
 	var ms []string
 	for i, c := range ex.Calls {
@@ -180,111 +193,129 @@ func rpcLabel(ex *simeth.Exchange) string {
 	return "rpc:" + ex.Host + ":" + strings.Join(ms, "+")
 }
 
+//go:norace
 func (w *W) hook() {
-	w.PG.Gate = func(b simpg.Batch) simpg.Fault {
-		if w.V.Cur() == nil || w.V.Closing() || w.dead {
-			return simpg.FaultNone
-		}
-		if b.Kind == "startup" || b.Kind == "terminate" || b.PrepareOnly {
-			return simpg.FaultNone
-		}
-		if b.Kind == "query" && emptySQL(b.SQL) {
-			return simpg.FaultNone // pgxpool's idle-connection ping ("-- ping"): wall-clock dependent, no effect
-		}
-		label := sqlLabel(b)
-		w.V.Point(label, false, nil)
-		if w.V.Closing() {
-			return simpg.FaultDrop
-		}
-		if w.RecordIO {
-			w.IOLabels = append(w.IOLabels, label)
-		}
-		if w.SQLFaultKinds > 0 && (w.FaultFilter == nil || w.FaultFilter(label)) {
-			switch w.V.ChooseFault(w.SQLFaultKinds, label) {
-			case 1:
-				w.Faults = append(w.Faults, label+"=error")
-				return simpg.FaultError
-			case 2:
-				w.Faults = append(w.Faults, label+"=drop")
-				return simpg.FaultDrop
-			}
-		}
+	w.PG.Gate = w.sqlGate
+	w.PG.Block = w.sqlBlock
+	w.PG.OnCommit = w.onCommit
+	w.Net.Gate = w.rpcGate
+}
+
+// The hooks are methods (not closures) so that //go:norace covers them: they run on the
+// goroutines of controlled threads and touch harness state.
+
+//go:norace
+func (w *W) sqlGate(b simpg.Batch) simpg.Fault {
+	if w.V.Cur() == nil || w.V.Closing() || w.dead {
 		return simpg.FaultNone
 	}
-	w.PG.Exec = func(run func()) {
-		vrt.RaceDisable()
-		run()
-		vrt.RaceEnable()
+	if b.Kind == "startup" || b.Kind == "terminate" || b.PrepareOnly {
+		return simpg.FaultNone
 	}
-	w.PG.Block = func(ready func() bool) {
-		if w.V.Cur() == nil || w.V.Closing() {
-			return
-		}
-		w.V.Point("sql:lockwait", false, ready)
+	if b.Kind == "query" && emptySQL(b.SQL) {
+		return simpg.FaultNone // pgxpool's idle-connection ping ("-- ping"): wall-clock dependent, no effect
 	}
-	w.PG.OnCommit = func(ev simpg.CommitEvent) {
-		name := "?"
-		if c := w.V.Cur(); c != nil {
-			name = c.Name
+	label := sqlLabel(b)
+	w.V.Point(label, false, nil)
+	if w.V.Closing() {
+		return simpg.FaultDrop
+	}
+	if w.RecordIO {
+		w.IOLabels = append(w.IOLabels, label)
+	}
+	if w.OnSQL != nil {
+		if f := w.OnSQL(label, b); f != simpg.FaultNone {
+			return f
 		}
-		if len(ev.Changes) > 0 && (ev.Kind == "commit" || ev.Kind == "autocommit") {
-			w.V.Bump()
+	}
+	if w.SQLFaultKinds > 0 && (w.FaultFilter == nil || w.FaultFilter(label)) {
+		switch w.V.ChooseFault(w.SQLFaultKinds, label) {
+		case 1:
+			w.Faults = append(w.Faults, label+"=error")
+			return simpg.FaultError
+		case 2:
+			w.Faults = append(w.Faults, label+"=drop")
+			return simpg.FaultDrop
 		}
-		if ev.Kind == "commit" || ev.Kind == "autocommit" {
-			h := w.CommitHash*1099511628211 + uint64(len(ev.Changes))
-			for _, ch := range ev.Changes {
-				for i := 0; i < len(ch.Table); i++ {
-					h = (h ^ uint64(ch.Table[i])) * 1099511628211
-				}
-				h = (h ^ uint64(ch.Row.ID)) * 1099511628211
-				if ch.Op == "delete" {
-					h ^= 0x9e3779b97f4a7c15
-				}
+	}
+	return simpg.FaultNone
+}
+
+//go:norace
+func (w *W) sqlBlock(ready func() bool) {
+	if w.V.Cur() == nil || w.V.Closing() {
+		return
+	}
+	w.V.Point("sql:lockwait", false, ready)
+}
+
+//go:norace
+func (w *W) onCommit(ev simpg.CommitEvent) {
+	name := "?"
+	if c := w.V.Cur(); c != nil {
+		name = c.Name
+	}
+	if len(ev.Changes) > 0 && (ev.Kind == "commit" || ev.Kind == "autocommit") {
+		w.V.Bump()
+	}
+	if ev.Kind == "commit" || ev.Kind == "autocommit" {
+		h := w.CommitHash*1099511628211 + uint64(len(ev.Changes))
+		for _, ch := range ev.Changes {
+			for i := 0; i < len(ch.Table); i++ {
+				h = (h ^ uint64(ch.Table[i])) * 1099511628211
 			}
-			w.CommitHash = h
+			h = (h ^ uint64(ch.Row.ID)) * 1099511628211
+			if ch.Op == "delete" {
+				h ^= 0x9e3779b97f4a7c15
+			}
 		}
-		c := Commit{Thread: name, Ev: ev}
-		w.Commits = append(w.Commits, c)
-		if w.OnCommit != nil {
-			w.OnCommit(c)
-		}
+		w.CommitHash = h
 	}
-	w.Net.Gate = func(ex *simeth.Exchange) {
-		if w.V.Cur() == nil || w.V.Closing() || w.dead {
-			return
-		}
-		label := rpcLabel(ex)
-		w.V.Point(label, false, nil)
-		if w.V.Closing() {
+	c := Commit{Thread: name, Ev: ev}
+	w.Commits = append(w.Commits, c)
+	if w.OnCommit != nil {
+		w.OnCommit(c)
+	}
+}
+
+//go:norace
+func (w *W) rpcGate(ex *simeth.Exchange) {
+	if w.V.Cur() == nil || w.V.Closing() || w.dead {
+		return
+	}
+	label := rpcLabel(ex)
+	w.V.Point(label, false, nil)
+	if w.V.Closing() {
+		ex.Fault = simeth.Fault{Kind: "transport"}
+		return
+	}
+	if w.RecordIO {
+		w.IOLabels = append(w.IOLabels, label)
+	}
+	if w.OnExchange != nil {
+		w.OnExchange(ex)
+	}
+	if w.RPCFaultKinds > 0 && (w.FaultFilter == nil || w.FaultFilter(label)) {
+		switch w.V.ChooseFault(w.RPCFaultKinds, label) {
+		case 1:
+			ex.Fault = simeth.Fault{Kind: "rpcerror", Code: -32000}
+			w.Faults = append(w.Faults, label+"=rpcerror")
+		case 2:
 			ex.Fault = simeth.Fault{Kind: "transport"}
-			return
-		}
-		if w.RecordIO {
-			w.IOLabels = append(w.IOLabels, label)
-		}
-		if w.OnExchange != nil {
-			w.OnExchange(ex)
-		}
-		if w.RPCFaultKinds > 0 && (w.FaultFilter == nil || w.FaultFilter(label)) {
-			switch w.V.ChooseFault(w.RPCFaultKinds, label) {
-			case 1:
-				ex.Fault = simeth.Fault{Kind: "rpcerror", Code: -32000}
-				w.Faults = append(w.Faults, label+"=rpcerror")
-			case 2:
-				ex.Fault = simeth.Fault{Kind: "transport"}
-				w.Faults = append(w.Faults, label+"=transport")
-			case 3:
-				ex.Fault = simeth.Fault{Kind: "status", Code: 500, Body: "oops"}
-				w.Faults = append(w.Faults, label+"=status500")
-			case 4:
-				ex.Fault = simeth.Fault{Kind: "truncate", Keep: 7}
-				w.Faults = append(w.Faults, label+"=truncate")
-			}
+			w.Faults = append(w.Faults, label+"=transport")
+		case 3:
+			ex.Fault = simeth.Fault{Kind: "status", Code: 500, Body: "oops"}
+			w.Faults = append(w.Faults, label+"=status500")
+		case 4:
+			ex.Fault = simeth.Fault{Kind: "truncate", Keep: 7}
+			w.Faults = append(w.Faults, label+"=truncate")
 		}
 	}
 }
 
 // Run executes body as the main controlled thread, then tears everything down.
+//
+//go:norace
 func (w *W) Run(body func()) {
 	w.V.Run(func() {
 		pool, err := w.PG.NewPool(w.Ctx)
@@ -319,12 +350,15 @@ func (w *W) Run(body func()) {
 // Death models process death: every connection is dropped, the network refuses, and the
 // caller must discard pool, clients and tasks; Revive makes the simulators answer again
 // (same database, same nodes) and returns a fresh pool.
+//
+//go:norace
 func (w *W) Death() {
 	w.PG.Refuse(true)
 	w.PG.DropAll()
 	w.Net.Closed = true
 }
 
+//go:norace
 func (w *W) Revive() error {
 	w.PG.Refuse(false)
 	w.Net.Closed = false
@@ -346,9 +380,12 @@ type Task struct {
 	Batch, Conc int
 }
 
+//go:norace
 func (t *Task) Key() string { return t.Src + "/" + t.IG }
 
 // LoadTasks calls the real loadTasks and returns the tasks sorted by (source, integration).
+//
+//go:norace
 func (w *W) LoadTasks(conf config.Root) ([]*Task, error) {
 	ts, err := shovel.VerifLoadTasks(w.Ctx, w.Pool, conf)
 	if err != nil {
@@ -365,6 +402,8 @@ func (w *W) LoadTasks(conf config.Root) ([]*Task, error) {
 }
 
 // Step runs one Converge and classifies the result. Panics of the code under test are returned as outcome "panic".
+//
+//go:norace
 func (t *Task) Step() (outcome string, err error) {
 	defer func() {
 		if r := recover(); r != nil {
@@ -387,6 +426,7 @@ func (t *Task) Step() (outcome string, err error) {
 	return "error", err
 }
 
+//go:norace
 func isErr(err, target error) bool {
 	for e := err; e != nil; {
 		if e == target {
@@ -402,9 +442,13 @@ func isErr(err, target error) bool {
 }
 
 // Node returns the simulated node of a host.
+//
+//go:norace
 func (w *W) Node(host string) *simeth.Node { return w.Net.Nodes[host] }
 
 // SetChain is an environment operation (a scheduling point for the caller) that replaces the node's chain.
+//
+//go:norace
 func (w *W) SetChain(host string, c *simeth.Chain, label string) {
 	vrt.Yield("env:" + label)
 	if w.V.Closing() {
